@@ -80,7 +80,8 @@ def _record(element, value, call):
             fl = ev["flags"]
             fl["snapSame"] = drive.deep_snapshot([element]) == snap0
             texts1 = _texts(element)
-            fl["reprSame"], fl["jsonSame"], fl["pySame"] = (a == b for a, b in zip(texts0, texts1))
+            from checks_heap import _texts_same
+            fl["reprSame"], fl["jsonSame"], fl["pySame"] = _texts_same(texts0, texts1, element)
             if copied:
                 try:
                     fl["inputSame"] = bool(vcopy == value) and repr(vcopy) == repr(value)
